@@ -16,7 +16,8 @@ EXPLANATION = (
     "received the stream (or be passed straight to fileCloseOut / handed to libNew, which stores it in lib->file); a raw "
     "fclose on such a variable is a violation. O2: libWrite marks the library (rdOnly false, wrMode set) and libClose, under that assumption, passes "
     "libPutHeader and then fileCloseOut(lib->name, lib->file) on every path and never a raw fclose. O3: the checked close "
-    "itself tests ferror(file) and the result of fclose(file) and calls (*fileError) on failure; compFileError, the "
+    "itself (evaluated as straight-line code for the two outcomes 'error indicator set, everything else succeeds' and 'only fclose "
+    "fails': both must reach the handler call) tests ferror(file) and the result of fclose(file) and calls (*fileError) on failure; compFileError, the "
     "installed handler, ends in comsgFatal. Scope: the outputs named by the property (-Fai -Fap -Fasy -Fao -Ffm -Flsp -Fc "
     "-Fjava -Fmain). O4: O3 relies on the stream's sticky error indicator surviving until the close, so every call of "
     "rewind/clearerr/freopen in the compiler must take a stream all of whose values in that function are read-mode opens (or a "
@@ -72,6 +73,71 @@ def check_close_helper(rep, f_file, f_axlcomp):
             if p["k"] != "BinaryOperator" or p["op"] in ("!=", "==", "<", "||", "&&", "|", "=", "|="):
                 fclose_tested = True
     indirect = [c for c in calls(fn["body"]) if c.get("via") == "fileError"]
+    # scenario evaluation: the function is straight-line code over one flag; with the stream's error indicator set (and
+    # every later call succeeding), and with only fclose failing, the handler call must be reached
+    from .peval import peval
+
+    def reaches_handler(outcome):
+        env = {}
+
+        def lookup(n, e):
+            if n["k"] == "CallExpr" and n.get("callee") in outcome:
+                return outcome[n["callee"]]
+            return None
+
+        hit = [False]
+
+        def run_(st):
+            if st is None:
+                return
+            k = st["k"]
+            if k == "CompoundStmt":
+                for x in st["c"]:
+                    run_(x)
+            elif k == "DeclStmt":
+                for d in st.get("decls", []):
+                    if d.get("init") is not None:
+                        v = peval(d["init"], env, lookup)
+                        if v is None:
+                            raise AnalysisBroken("fileCloseOut: initialiser of %s is not decided by ferror/fflush/fclose alone" % d["n"])
+                        env[d["n"]] = v
+            elif k == "BinaryOperator" and st["op"] == "=":
+                l = strip(st["c"][0])
+                v = peval(st["c"][1], env, lookup)
+                if l is None or l["k"] != "DeclRefExpr" or v is None:
+                    raise AnalysisBroken("fileCloseOut: assignment at line %d not understood" % st["l"])
+                env[l["n"]] = v
+            elif k == "CompoundAssignOperator" and st["op"] == "|=":
+                l = strip(st["c"][0])
+                v = peval(st["c"][1], env, lookup)
+                if l is None or v is None:
+                    raise AnalysisBroken("fileCloseOut: assignment at line %d not understood" % st["l"])
+                env[l["n"]] = env.get(l["n"], 0) | v
+            elif k == "IfStmt":
+                c = peval(st["c"][0], env, lookup)
+                if c is None:
+                    raise AnalysisBroken("fileCloseOut: condition at line %d is not decided by ferror/fflush/fclose alone" % st["l"])
+                run_(st["c"][1] if c else st["c"][2])
+            elif k in ("CStyleCastExpr", "ParenExpr", "ImplicitCastExpr"):
+                run_(st["c"][0])
+            elif k == "CallExpr":
+                if st.get("via") == "fileError":
+                    hit[0] = True
+            elif k in ("NullStmt", "ReturnStmt"):
+                pass
+            else:
+                raise AnalysisBroken("fileCloseOut: statement %s at line %d not understood" % (k, st["l"]))
+        run_(fn["body"])
+        return hit[0]
+    sc1 = reaches_handler({"ferror": 1, "fflush": 0, "fclose": 0})
+    sc2 = reaches_handler({"ferror": 0, "fflush": 0, "fclose": -1})
+    if sc1 and sc2:
+        rep.ok("O3", "fileCloseOut:scenarios", sample={"error-indicator-set": "handler called", "fclose-fails": "handler called"})
+    else:
+        rep.violation("O3", "fileCloseOut:scenarios", "file.c:%d (fileCloseOut)" % fn["l"],
+                      "evaluating fileCloseOut with %s does not reach the (*fileError) call: a write error recorded on the stream "
+                      "is dropped at the only place that turns it into a failure status"
+                      % ("ferror(file) != 0 and fflush/fclose succeeding" if not sc1 else "only fclose(file) failing"))
     ok = has_ferror and has_fclose and fclose_tested and indirect
     if ok:
         rep.ok("O3", "fileCloseOut", sample={"calls": cs, "handler": "(*fileError)"})
